@@ -224,4 +224,44 @@ func c03ReplyVerbatim(p *Prog, r *Report) {
 		bad = append(bad, "OnResult does not hand the backend's frame to the reply function")
 	}
 	r.check(len(bad) == 0, rule, req.Obj().Name()+".OnResult->reply", p.Pos(onRes.Pos()), "", strings.Join(dedupe(bad), " || "))
+
+	// a backend reply is either forwarded as received or retried: on the delivery path only
+	// the host walk (query plan exhausted) may answer with a message built by the proxy
+	rr := requestRoles(p)
+	local := map[*ssa.Function]bool{}
+	for fn := range replyFuncs(p, req) {
+		for _, f := range withClosures(fn) {
+			eachCall(f, func(c ssa.CallInstruction) {
+				if cm := c.Common(); cm.IsInvoke() && cm.Method.Name() == "EncodeFrame" {
+					local[fn] = true
+				}
+			})
+		}
+	}
+	var bad2 []string
+	seen := map[*ssa.Function]bool{}
+	var walk func(f *ssa.Function, depth int)
+	walk = func(f *ssa.Function, depth int) {
+		if seen[f] || f == rr.execLoop || depth > 4 {
+			return
+		}
+		seen[f] = true
+		for _, g := range withClosures(f) {
+			eachCall(g, func(c ssa.CallInstruction) {
+				callee := c.Common().StaticCallee()
+				if callee == nil {
+					return
+				}
+				if local[callee] {
+					bad2 = append(bad2, fmt.Sprintf("%s: %s answers the client with a message built by the proxy while delivering a backend reply: the backend's frame (flags, opcode, body) is replaced instead of being passed through", p.Pos(c.Pos()), f.Name()))
+					return
+				}
+				if recvNamed(callee) == req {
+					walk(callee, depth+1)
+				}
+			})
+		}
+	}
+	walk(onRes, 0)
+	r.check(len(bad2) == 0, rule, req.Obj().Name()+".OnResult:no-substitute", p.Pos(onRes.Pos()), fmt.Sprintf("%d functions on the delivery path (host walk excluded)", len(seen)), strings.Join(dedupe(bad2), " || "))
 }
